@@ -2,7 +2,7 @@
 (* Trace validation for C14: properties of a returned isotopic pattern.       *)
 (* A pattern is a sequence of [m |-> Fix mass, a |-> abundance] where an      *)
 (* abundance is [c0, c1, c2] = c0 + c1*1e-4 + c2*1e-8 (non-negative).         *)
-EXTENDS TraceBase, Chem
+EXTENDS TraceBase, Chem, Isotope
 VARIABLE l
 
 Comp(ps) == CompFromPairs([ q \in 1..Len(ps) |-> <<ps[q][1], ps[q][2]>> ])
@@ -64,7 +64,28 @@ MergeFails(ev) ==
          \cup (IF \E q \in 1..Len(ev.res) : ev.res[q].m \in masses /\ AFix(ev.res[q].a) # Want(ev.res[q].m) THEN {"merged_abundance_is_not_the_sum"} ELSE {})
          \cup (IF ~SortedByMass(ev.res) THEN {"merged_not_sorted"} ELSE {})
 
+(* k = "exact": composition of at most 12 atoms over C,H,N,O,S,P (integer counts), default options.             *)
+(* ev.peaks = <<[m |-> Fix mass, a8 |-> abundance in 1e-8 units, relative to the largest peak]>>                   *)
+(* Library masses are rounded to 5 decimals, so peaks are matched within 1.5e-5 Da; abundances relative to the     *)
+(* largest peak must agree within 2e-6 wherever either side is above 1e-6.                                          *)
+NearM(a, b) == FWithin(a, b, Micro(15))
+ExactFails(ev) ==
+    IF ev.out # "ret" THEN {"raised_" \o ev.out}
+    ELSE LET E == Exact(ev.comp)
+             mx == MaxAb(E)
+             (* exact abundance near a mass, relative to the exact maximum, in 1e-8 units *)
+             ExactNear(m) == SumAb({ d \in E : NearM(d[1], m) })
+             LibNear(m) == LET S == { q \in 1..Len(ev.peaks) : NearM(ev.peaks[q].m, m) } IN
+                           SumAb({ <<q, ev.peaks[q].a8>> : q \in S })
+             (* compare x/mx (exact) with y/1e8 (library, already relative): |x * 1e8 - y * mx| <= tol * mx, done limb-wise *)
+             Close(x, y) == LET lhs == MulA(y, mx) IN (x >= lhs - 300 - mx \div 400000) /\ (x <= lhs + 300 + mx \div 400000) IN
+         (IF \E d \in E : d[2] >= mx \div 1000000 + 200 /\ ~Close(ExactNear(d[1]), LibNear(d[1]))
+          THEN {"exact_peak_missing_or_wrong_abundance"} ELSE {})
+         \cup (IF \E q \in 1..Len(ev.peaks) : ev.peaks[q].a8 >= 300 /\ ~Close(ExactNear(ev.peaks[q].m), LibNear(ev.peaks[q].m))
+               THEN {"returned_peak_not_in_exact_expansion"} ELSE {})
+
 Fails(ev) == CASE ev.k = "pattern" -> PatternFails(ev)
+               [] ev.k = "exact" -> ExactFails(ev)
                [] ev.k = "bins" -> BinsFails(ev)
                [] ev.k = "merge" -> MergeFails(ev)
                [] OTHER -> {"unknown_event_kind"}
